@@ -12,6 +12,7 @@ import MediaSan.Lemmas.ScanSafe
 import MediaSan.Lemmas.WebpSafe
 import MediaSan.Lemmas.Vp8lSafe
 import MediaSan.Lemmas.WebpTerm
+import MediaSan.Lemmas.BufValidator
 namespace MediaSan.Props.C09
 open MediaSan MediaSan.Mp4
 
@@ -95,6 +96,14 @@ theorem C09_displaceMoov_no_panic (disp : Int) (d : Data L5) (site : String) : d
 theorem C09_vp8l_no_panic (data : ByteArray) (width height : Nat) (cfg : Vp8l.LCfg) (site : String) :
     Vp8l.validate data width height cfg ≠ .error (.panic site) :=
   Vp8l.validate_np data width height cfg site
+
+/-- ... and neither does the validator as the code runs it, through the bit buffer: for every capacity of at least
+    11 bytes `validateBuf cap` is `validate` (`C19_validator_buffered`), so no payload, declared size or placement of
+    the refills reaches a panic site -/
+theorem C09_vp8l_buffered_no_panic (cap : Nat) (hcap : 11 ≤ cap) (data : Bytes) (width height : Nat)
+    (cfg : Vp8l.LCfg) (site : String) : Vp8l.validateBuf cap data width height cfg ≠ .error (.panic site) := by
+  rw [Vp8l.validateBuf_eq cap hcap]
+  exact Vp8l.validate_np _ width height cfg site
 
 /-- the whole WebP sanitizer on the ideal cursor (seek-based or strict skip) never panics, for EVERY stream and
     configuration: no chunk-reader protocol assertion ("read_header must be read after peek_header"), no unreachable
